@@ -24,7 +24,8 @@ NoF9  == [AllFixed EXCEPT !.F9  = FALSE]
 
 \* --- pools per property family ---------------------------------------------------
 PoolC01 == {S(C(1,"ok")), S(N("ok")), B2(C(1,"ok"), C(2,"ok")), B2(C(1,"ok"), N("ok")), B2(N("ok"), N("ok")),
-            B2(C(1,"ok"), Inv(2)), B1(InvNoId), B2(C(1,"nf"), N("nf")), G, E}
+            B2(C(1,"ok"), Inv(2)), B1(InvNoId), B2(C(1,"nf"), N("nf")), G, E,
+            B1(C(2,"ok")), B1(N("ok"))}     \* one-member arrays: the reply is an array iff the inbound message was one
 PoolC03 == {S(N("ok")), S(C(1,"ok")), S(C(2,"ok")), B2(N("ok"), C(1,"ok")), B2(C(1,"ok"), C(2,"ok")), B2(N("ok"), N("ok"))}
 PoolC06 == {S(C(1,"ok")), S(C(2,"ok")), B2(C(1,"ok"), C(2,"ok")), B3(C(1,"ok"), C(2,"ok"), C(3,"ok")), S(N("ok")), S(C(3,"info"))}
 PoolC07 == {S(C(1,"ok")), S(C(1,"nf")), S(C(1,"rpc")), S(C(2,"ok")), B2(C(1,"ok"), C(1,"ok")), B2(C(1,"nf"), C(2,"ok")), S(N("ok")),
